@@ -5,6 +5,7 @@ import (
 	"go/constant"
 	"go/token"
 	"go/types"
+	"regexp"
 	"strings"
 
 	"golang.org/x/tools/go/ssa"
@@ -120,6 +121,11 @@ func c08(c *Ctx) {
 			okElem = msg == "confirmed[(phi:rangeindex + 1)].event.msg" && hdr == "confirmed[(phi:rangeindex + 1)].header"
 		case a.handleGov:
 			okElem = strings.HasPrefix(msg, fname(a.toWormMsg)+"(confirmed[(phi:rangeindex + 1)].ContractEventByTxId.Fields,") && strings.HasSuffix(msg, "#0") && hdr == "confirmed[(phi:rangeindex + 1)].header"
+			if !okElem && msg == "confirmed[(phi:rangeindex + 1)].msg" && hdr == "confirmed[(phi:rangeindex + 1)].header" {
+				// the message parsed when the element was collected: every reobservedEvent is
+				// built with msg = ToWormholeMessage(<its own event>.Fields, …)
+				okElem = c08reobsMsgIsOwn(p, a)
+			}
 		}
 		R.Check("C08.sender", R.Key("C08.sender", shortFn(sd.Fn), construct+":element"), pos, "the sink forwards the message and header of one element of its input list (provenance carried by the element type)", okElem, "msg="+msg+" header="+hdr)
 		R.Sample(map[string]any{"sink": "msgChan <- " + facts.Term(sd.X), "in": fname(sd.Fn), "facts": facts.Atoms(fs)})
@@ -155,6 +161,24 @@ func c08pollFinal(c *Ctx, a *alphAnchors) {
 		vals, _ := allocStores(al)
 		ev, hdr := termOrNil(vals["event"]), termOrNil(vals["header"])
 		fs := facts.At(al, nil)
+		// the pending set: the map[string]*UnconfirmedEventsPerBlock whose range loop encloses the
+		// allocation (a captured variable of the process closure, or a local/parameter when that
+		// code lives elsewhere)
+		pendT := "pendingEvents"
+		for _, l := range facts.LoopsOf(s.Fn) {
+			if !l.Body()[al.Block()] {
+				continue
+			}
+			for _, ins := range l.Header.Instrs {
+				if nx, ok := ins.(*ssa.Next); ok {
+					if rg, ok := nx.Iter.(*ssa.Range); ok {
+						if mt, ok := rg.X.Type().Underlying().(*types.Map); ok && strings.HasSuffix(mt.Elem().String(), "UnconfirmedEventsPerBlock") {
+							pendT = facts.Term(rg.X)
+						}
+					}
+				}
+			}
+		}
 		var conf *ssa.Call
 		for _, f := range fs {
 			if f.Pol {
@@ -182,7 +206,7 @@ func c08pollFinal(c *Ctx, a *alphAnchors) {
 			bad = append(bad, "mainnet flag argument is "+facts.Term(args[5]))
 		}
 		// height argument is the closure's parameter (the value received from heightC)
-		if _, isParam := args[4].(*ssa.Parameter); !isParam {
+		if _, isParam := args[4].(*ssa.Parameter); !isParam && !c08fromHeightC(args[4]) {
 			bad = append(bad, "height argument is "+facts.Term(args[4]))
 		}
 		// header belongs to the block whose hash keys the pending entry, main-chain answer for that key, same iteration
@@ -194,7 +218,7 @@ func c08pollFinal(c *Ctx, a *alphAnchors) {
 			}
 			if u, ok := f.Cond.(*ssa.UnOp); ok && u.Op == token.MUL {
 				if ex, ok := u.X.(*ssa.Extract); ok && ex.Index == 0 {
-					if cl, ok := ex.Tuple.(*ssa.Call); ok && strings.HasPrefix(facts.Term(cl), "dyn:isBlockInMainChain(next(range(pendingEvents))#1)") {
+					if cl, ok := ex.Tuple.(*ssa.Call); ok && strings.HasPrefix(facts.Term(cl), "dyn:isBlockInMainChain(next(range("+pendT+"))#1)") {
 						canon, canonCall = true, cl
 					}
 				}
@@ -214,7 +238,7 @@ func c08pollFinal(c *Ctx, a *alphAnchors) {
 				bad = append(bad, "main-chain answer is not obtained inside the per-block loop (stale answer)")
 			}
 		}
-		if hdr != "next(range(pendingEvents))#2.header" || !strings.HasPrefix(ev, "next(range(pendingEvents))#2.events[") {
+		if hdr != "next(range("+pendT+"))#2.header" || !strings.HasPrefix(ev, "next(range("+pendT+"))#2.events[") {
 			bad = append(bad, "event/header are not those of the pending entry being iterated: "+ev+" / "+hdr)
 		}
 		R.Check("C08.poll-final", key, pos, "a ConfirmedEvent is created only for an event of the iterated pending block with isEventConfirmed(event, block header, now, height, isMainnet) and a main-chain answer for that block obtained in the same pass", len(bad) == 0, strings.Join(bad, "; "), facts.Atoms(fs)...)
@@ -228,7 +252,10 @@ func c08pollFinal(c *Ctx, a *alphAnchors) {
 			continue
 		}
 		nh++
-		okh := facts.Term(st.Val) == "dyn:getBlockHeader(next(range(pendingEvents))#1)#0" && facts.Term(st.Addr) == "next(range(pendingEvents))#2.header"
+		okh := false
+		if m := regexp.MustCompile(`^next\(range\((.+)\)\)#2\.header$`).FindStringSubmatch(facts.Term(st.Addr)); m != nil {
+			okh = facts.Term(st.Val) == "dyn:getBlockHeader(next(range("+m[1]+"))#1)#0"
+		}
 		R.Check("C08.poll-final", R.Key("C08.poll-final", shortFn(s.Fn), "store:header"), c.sitePos(p, s), "a pending block's header is the header fetched for that block's hash", okh, facts.Term(st.Addr)+" = "+facts.Term(st.Val))
 	}
 	R.Floor("C08.poll-final.header", nh, 1)
@@ -404,15 +431,22 @@ func c08core(c *Ctx, a *alphAnchors) {
 	n := 0
 	for _, s := range callsNamed(p, pkgAlph, "(*N/alephium.Client).GetContractEvents") {
 		n++
-		arg := facts.Term(s.Instr.(ssa.CallInstruction).Common().Args[2])
+		arg := facts.Term(initAlias(s.Instr.(ssa.CallInstruction).Common().Args[2]))
 		R.Check("C08.core-contract", R.Key("C08.core-contract", shortFn(s.Fn), "call:GetContractEvents"), c.sitePos(p, s), "polled events are those of the configured core (governance) contract", arg == "w.governanceContractAddress", "address argument = "+arg)
 	}
 	R.Floor("C08.core-contract", n, 1)
 	// handleUnconfirmedEvents is fed only with that call's result
 	for _, s := range callsTo(p, a.handleUnconfirmed) {
-		arg := facts.Term(s.Instr.(ssa.CallInstruction).Common().Args[3])
+		av := s.Instr.(ssa.CallInstruction).Common().Args[3]
+		arg := facts.Term(av)
+		okPage := false
+		if ex, isEx := strip(av).(*ssa.Extract); isEx && ex.Index == 0 {
+			if gc, isCall := ex.Tuple.(*ssa.Call); isCall && facts.CalleeName(&gc.Call) == "(*N/alephium.Client).GetContractEvents" {
+				okPage = facts.Term(gc.Call.Args[0]) == "client" && facts.Term(initAlias(gc.Call.Args[2])) == "w.governanceContractAddress"
+			}
+		}
 		R.Check("C08.core-contract", R.Key("C08.core-contract", shortFn(s.Fn), "call:handleUnconfirmedEvents"), c.sitePos(p, s), "handleUnconfirmedEvents receives the page fetched from the core contract",
-			s.Fn == a.fetchEvents && strings.HasPrefix(arg, "(*N/alephium.Client).GetContractEvents(client,ctx,w.governanceContractAddress,"), "argument = "+arg)
+			s.Fn == a.fetchEvents && okPage, "argument = "+arg)
 	}
 	// UnconfirmedEvent allocation sites
 	ueT := must(p.Named(pkgAlph, "UnconfirmedEvent"), "alephium.UnconfirmedEvent")
@@ -651,8 +685,8 @@ func c08once(c *Ctx, a *alphAnchors) {
 	for _, s := range callsNamed(p, pkgAlph, "(*N/alephium.Client).GetContractEvents") {
 		from := s.Instr.(ssa.CallInstruction).Common().Args[3]
 		var bad []string
-		for _, leaf := range phiLeaves(from) {
-			t := facts.Term(leaf)
+		for _, leaf := range c08cursorLeaves(from) {
+			t := facts.Term(leaf.v)
 			if strings.HasSuffix(t, ".NextStart") && strings.Contains(t, "GetContractEvents") {
 				continue
 			}
@@ -676,7 +710,11 @@ func c08once(c *Ctx, a *alphAnchors) {
 						cnt = x
 					}
 				}
-				find(leaf, 0)
+				find(leaf.v, 0)
+				if leaf.at != nil {
+					// obtained through a local helper: where the helper is called decides
+					cnt = leaf.at
+				}
 				if cnt != nil {
 					for _, l := range facts.LoopsOf(cnt.Parent()) {
 						if l.Body()[cnt.Block()] {
@@ -694,17 +732,23 @@ func c08once(c *Ctx, a *alphAnchors) {
 		R.Check("C08.once", R.Key("C08.once", shortFn(s.Fn), "cursor"), c.sitePos(p, s), "the polling cursor only ever takes the start-up count or the NextStart returned by the previous page (monotone; no page is fetched twice)", len(bad) == 0, "other cursor sources: "+strings.Join(bad, ", "))
 	}
 	// single disposition of a pending event per pass
-	proc := a.handleEvents_.AnonFuncs
-	if len(proc) == 0 {
-		R.Fail("C08.once", "C08.once/process", "", "process closure", "undecided: closure not found")
+	evF := must(p.FieldOf(pkgAlph, "UnconfirmedEventsPerBlock", "events"), "UnconfirmedEventsPerBlock.events")
+	// the pass over the pending set: the function (handleEvents_ or a function literal in it) that
+	// creates ConfirmedEvents
+	var pr *ssa.Function
+	for _, s := range allocsOf(p, must(p.Named(pkgAlph, "ConfirmedEvent"), "alephium.ConfirmedEvent")) {
+		if top(s.Fn) == a.handleEvents_ {
+			pr = s.Fn
+		}
+	}
+	if pr == nil {
+		R.Fail("C08.once", "C08.once/process", "", "pass over the pending set", "undecided: no function under handleEvents_ creates ConfirmedEvents")
 		return
 	}
-	pr := proc[0]
-	evF := must(p.FieldOf(pkgAlph, "UnconfirmedEventsPerBlock", "events"), "UnconfirmedEventsPerBlock.events")
 	nst := 0
 	eachInstr(pr, func(i ssa.Instruction) {
 		st, ok := i.(*ssa.Store)
-		if !ok || fieldOfAddr(st.Addr) != evF || isFreshAlloc(st.Addr) {
+		if !ok || fieldOfAddr(st.Addr) != evF || isFreshAlloc(st.Addr) || !inPendingPass(st.Block()) {
 			return
 		}
 		nst++
@@ -731,4 +775,133 @@ func c08once(c *Ctx, a *alphAnchors) {
 		R.Check("C08.once", R.Key("C08.once", shortFn(pr), "store:events"), c.rel(p.Pos(st.Pos())), "after a pass a pending block keeps exactly the events that were not yet confirmed (confirmed or dropped events leave the pending set)", okl, "stored list = "+facts.Term(st.Val))
 	})
 	R.Floor("C08.once.pending-replaced", nst, 1)
+}
+
+// c08fromHeightC: v is the value received from the heightC parameter in a select (or by a plain
+// receive).
+func c08fromHeightC(v ssa.Value) bool {
+	switch x := strip(v).(type) {
+	case *ssa.Extract:
+		if sel, ok := x.Tuple.(*ssa.Select); ok {
+			// results: index, recvOk, then one value per receive state in order
+			k := 2
+			for _, st := range sel.States {
+				if st.Dir != types.RecvOnly {
+					continue
+				}
+				if k == x.Index {
+					return facts.Term(st.Chan) == "heightC"
+				}
+				k++
+			}
+		}
+	case *ssa.UnOp:
+		return x.Op == token.ARROW && facts.Term(x.X) == "heightC"
+	}
+	return false
+}
+
+// inPendingPass: b lies in a loop that ranges over a map of pending blocks
+// (map[string]*UnconfirmedEventsPerBlock) — the per-height pass, as opposed to the filing of newly
+// received events.
+func inPendingPass(b *ssa.BasicBlock) bool {
+	for _, l := range facts.LoopsOf(b.Parent()) {
+		if !l.Body()[b] {
+			continue
+		}
+		for _, ins := range l.Header.Instrs {
+			if nx, ok := ins.(*ssa.Next); ok {
+				if rg, ok := nx.Iter.(*ssa.Range); ok {
+					if mt, ok := rg.X.Type().Underlying().(*types.Map); ok && strings.HasSuffix(mt.Elem().String(), "UnconfirmedEventsPerBlock") {
+						return true
+					}
+				}
+			}
+		}
+	}
+	return false
+}
+
+// c08reobsMsgIsOwn: every reobservedEvent literal sets msg to the result of ToWormholeMessage
+// applied to the Fields of the very event stored in the same literal.
+func c08reobsMsgIsOwn(p *load.Program, a *alphAnchors) bool {
+	reT := must(p.Named(pkgAlph, "reobservedEvent"), "alephium.reobservedEvent")
+	n := 0
+	for _, s := range allocsOf(p, reT) {
+		vals, cnt := allocStores(s.Instr.(*ssa.Alloc))
+		ev, msg := termOrNil(vals["ContractEventByTxId"]), termOrNil(vals["msg"])
+		if vals["ContractEventByTxId"] == nil || cnt["msg"] != 1 {
+			return false
+		}
+		evT := strings.TrimPrefix(ev, "*")
+		if al, ok := vals["ContractEventByTxId"].(*ssa.Alloc); ok {
+			// `contractEvent := event; …{&contractEvent, …}`: a private copy of the ranged element
+			if w := wholeCopyOf(al); w != nil {
+				evT = facts.Term(w)
+			}
+		}
+		if !strings.HasPrefix(msg, fname(a.toWormMsg)+"("+evT+".Fields,") || !strings.HasSuffix(msg, "#0") {
+			return false
+		}
+		n++
+	}
+	return n > 0
+}
+
+type cursorLeaf struct {
+	v  ssa.Value
+	at *ssa.Call // call of a local function literal through which the value was obtained (nil: direct)
+}
+
+// c08cursorLeaves resolves the values the cursor can take: through phis and through the results
+// of local function literals (each return statement's operand, remembered with the call site).
+func c08cursorLeaves(v ssa.Value) []cursorLeaf {
+	var out []cursorLeaf
+	seen := map[ssa.Value]bool{}
+	var walk func(x ssa.Value, at *ssa.Call, d int)
+	walk = func(x ssa.Value, at *ssa.Call, d int) {
+		if x == nil || d > 8 || seen[x] {
+			return
+		}
+		seen[x] = true
+		switch y := x.(type) {
+		case *ssa.Phi:
+			for _, e := range y.Edges {
+				walk(e, at, d+1)
+			}
+			return
+		case *ssa.Extract:
+			if cl, ok := y.Tuple.(*ssa.Call); ok {
+				if mc, ok := resolveSpill(cl.Call.Value).(*ssa.MakeClosure); ok {
+					site := at
+					if site == nil {
+						site = cl
+					}
+					eachInstr(mc.Fn.(*ssa.Function), func(i ssa.Instruction) {
+						if r, ok := i.(*ssa.Return); ok && y.Index < len(r.Results) {
+							// the failure return of a (value, ok) helper carries a dummy value
+							if len(r.Results) == 2 {
+								if b, isB := isBoolConstV(r.Results[1]); isB && !b {
+									return
+								}
+							}
+							walk(r.Results[y.Index], site, d+1)
+						}
+					})
+					return
+				}
+			}
+		}
+		out = append(out, cursorLeaf{x, at})
+	}
+	walk(v, nil, 0)
+	return out
+}
+
+func isBoolConstV(v ssa.Value) (val, ok bool) {
+	c, isC := v.(*ssa.Const)
+	if !isC || c.Value == nil || c.Value.Kind() != constant.Bool {
+		return false, false
+	}
+	return constant.BoolVal(c.Value), true
 }
